@@ -36,14 +36,19 @@ RULE = ("conv cases: every document of length <= 5 over {a, LF, CR, e-acute, sno
         "character-boundary offset, a grid of positions incl. out-of-range ones), then random documents up to 2 KiB; "
         "edit cases: generated Garden programs with non-ASCII literals/comments before and inside the edited "
         "regions (LF, CRLF variants), ops formatting / rename at identifier and random offsets / codeAction on "
-        "expression spans and random spans / all quick fixes; a case is distinct and non-trivial by its key = "
+        "expression spans and random spans / all quick fixes; lint cases: documents in which every fixable lint "
+        "(unnecessary let / return, unused let / value / param / type param / import, repeated bool, list-len compare, "
+        "unreachable arm, missing cases, + on strings / floats) sits on a construct that spans several lines "
+        "(multi-line calls, if / match expressions, multi-line strings, broken lists) with non-ASCII before and inside, "
+        "each quick fix judged alone against the checker's fix and all together against `check --fix --stdout`; "
+        "a case is distinct and non-trivial by its key = "
         "(conv: length, characters used, outcome) or (edit: set of op outcome tags such as rename:n-edits:non-ascii-"
         "before, action titles returned, format changed/unchanged)")
 ASSUME = ["gm/ref/lsppos.py and gm/ref/lspedit.py are a faithful reading of LSP 3.17 (Position, TextEdit[], WorkspaceEdit)",
           "the reftest-* subcommands and `format` / `check --fix --stdout` are the command-line refactorings the property means",
           "for texts that `garden format` / `garden check` would rewrite before use (no final newline, CRLF, `// args: ` "
           "footer line) the in-process hook (frontend op) stands in for the command line"]
-BATCH = 3
+BATCH = 2
 FLOOR = {"quick": 25, "thorough": 150}
 BUDGET = {"quick": 35, "thorough": 780}
 
@@ -84,7 +89,9 @@ def gen_cases(tier, seed):
             yield {"t": "conv", "docs": docs[i:i + 150], "cls": "len%d:%s" % (ln, _names(used))}
             k += 1
             if k % 6 == 0:
-                yield edit_case(erng)      # both kinds of cases from the first seconds on
+                yield edit_case(erng)      # all kinds of cases from the first seconds on
+            if k % 6 == 3:
+                yield lint_case(erng)
         n += len(docs)
     yield {"_marker": "small-documents", "documents": n, "alphabet": ["a", "LF", "CR", "U+00E9", "U+2603", "U+1F600"],
            "max_length": 5, "space": "all documents, every character-boundary offset, position grid"}
@@ -96,6 +103,8 @@ def gen_cases(tier, seed):
         if k % 4 == 0:
             docs = [fdocs.random_doc(rng) for _ in range(20)]
             yield {"t": "conv", "docs": docs, "cls": "random:" + _features("".join(docs))}
+        elif k % 4 == 2:
+            yield lint_case(rng)
         else:
             yield edit_case(rng)
 
@@ -145,7 +154,7 @@ def edit_case(rng):
         ops.append({"op": "fixes"})
     binders = [s for s in spans if s[2] == "binder"]
     exprs = [s for s in spans if s[2].startswith("expr")]
-    for _ in range(rng.randint(1, 3)):
+    for _ in range(rng.randint(1, 2)):
         k = rng.random()
         if idents and k < 0.6:
             a, b, _n = rng.choice(idents)
@@ -161,7 +170,7 @@ def edit_case(rng):
             a, b, nm = rng.choice(idents)
             ops.append({"op": "ranges", "off": rng.choice([a, a, (a + b) // 2]), "name": nm})
     ops.append({"op": "symbols"})
-    for _ in range(rng.randint(1, 3)):
+    for _ in range(rng.randint(1, 2)):
         k = rng.random()
         if exprs and k < 0.6:
             a, b, _k = rng.choice(exprs)
@@ -175,6 +184,33 @@ def edit_case(rng):
             a, b = sorted([rng.choice(bounds), rng.choice(bounds)])
         ops.append({"op": "action", "start": a, "end": b, "slack": rng.random() < 0.3})
     return {"t": "edit", "src": text, "ops": ops, "eol": eol}
+
+
+def lint_case(rng):
+    """Quick fixes on constructs that span several lines (non-ASCII before and inside)."""
+    text, kinds = fdocs.lint_program(rng)
+    eol = "lf"
+    v = rng.random()
+    if v < 0.15:
+        text = text.replace("\n", "\r\n")
+        eol = "crlf"
+    elif v < 0.25 and text.endswith("\n"):
+        text = text[:-1]
+        eol = "lf-nonl"
+    ops = [{"op": "fixes"}]
+    if rng.random() < 0.5:
+        ops.append({"op": "format"})
+    # the same fixes requested through narrower ranges (whole lines)
+    raw = text.encode("utf-8")
+    starts = [0] + [i + 1 for i, b in enumerate(raw) if b == 10]
+    for _ in range(rng.randint(0, 2)):
+        a = rng.choice(starts)
+        b = min(len(raw), a + rng.randint(0, 60))
+        while b < len(raw) and (raw[b] & 0xC0) == 0x80:
+            b += 1
+        if text.encode("utf-8")[a:b].decode("utf-8", "ignore") is not None:
+            ops.append({"op": "action", "start": a, "end": b, "slack": False, "fixes_only": True})
+    return {"t": "edit", "src": text, "ops": ops, "eol": eol, "lint": sorted(set(kinds))}
 
 
 def _shift_spans(text, spans):
@@ -453,7 +489,7 @@ class EditRunner:
                 for act in acts:
                     by_title.setdefault(act.get("title"), []).append(act)
                 inside = src.encode("utf-8")[a:b].decode("utf-8", "replace")
-                for title, (cmd, extra) in REFACTORS.items():
+                for title, (cmd, extra) in ([] if op.get("fixes_only") else REFACTORS.items()):
                     r = core.run_garden([cmd, path, str(a), str(b)] + extra, timeout=60)
                     if r.cls not in ("ok", "badreq"):
                         raise Inconclusive({"cli": cmd, "run": r.brief()})
@@ -572,6 +608,8 @@ class EditRunner:
                         tags.add("fixes:%d" % min(len(qf), 5))
                     else:
                         tags.add("fixes:overlapping")
+        for lk in case.get("lint") or []:
+            tags.add("lint:" + lk)
         if viol:
             # the first violation that is not the known CR family decides the signature
             viol.sort(key=lambda v: v[0].startswith("cr-not-line-terminator"))
@@ -591,8 +629,10 @@ class EditRunner:
             doc = lsppos.Doc(src, lsppos.EOL_LF)
             for x in qf:
                 try:
-                    for e in lspedit.edits_for_uri(x.get("edit"), uri)[0]:
+                    es = lspedit.edits_for_uri(x.get("edit"), uri)[0]
+                    for e in es:
                         lspedit.resolve(doc, e)
+                    lspedit.apply_text_edits(src, es, eol=lsppos.EOL_LF)      # overlapping edits in one WorkspaceEdit
                 except lspedit.EditError as ex:
                     viol.append(("quickfix-bad-edit", {"src": src, "action": x, "err": str(ex)}))
             return
